@@ -1,12 +1,13 @@
 #!/bin/bash
 # usage: run_mutant.sh <dir with patch.diff> <PROP> [extra check.py args]
-# Applies the patch to /repo, runs the quick check, always restores /repo.  Exit = check's exit.
+# Applies the patch to a scratch worktree of /repo (never to /repo itself), runs the quick check
+# against it (VOPY_VERIF_REPO) and removes the worktree.  Exit status = the check's.
 set -u
 d=$(realpath "$1"); prop=$2; shift 2
-cd /repo || exit 3
-if ! git diff --quiet; then echo "run_mutant: /repo has uncommitted changes; refusing" >&2; exit 3; fi
-git apply "$d/patch.diff" || { echo "run_mutant: patch does not apply" >&2; exit 3; }
-trap 'cd /repo && git checkout -- . ' EXIT
+wt=/tmp/wt/mut-$$
+git -C /repo worktree add -q "$wt" HEAD || exit 3
+trap 'git -C /repo worktree remove --force "$wt" >/dev/null 2>&1' EXIT
+git -C "$wt" apply "$d/patch.diff" || { echo "run_mutant: patch does not apply" >&2; exit 3; }
 cd /verif
-timeout 1500 /venv/bin/python check.py "$prop" --tier quick "$@" 2>&1 | grep -v Warn | grep -E "^(VIOLATION|OK|ERROR|KNOWN)|signature" | cut -c1-220
+VOPY_VERIF_REPO="$wt" timeout 1500 /venv/bin/python check.py "$prop" --tier quick "$@" 2>&1 | grep -v Warn | grep -E "^(VIOLATION|OK|ERROR|KNOWN)|signature" | cut -c1-220
 exit ${PIPESTATUS[0]}
